@@ -159,10 +159,10 @@ pub const BUILTINS: [(&str, &[(&str, bool)]); 10] = [
     ("drawCircle", &[("x0", false), ("y0", false), ("radius", false), ("color", false)]),
 ];
 
-const NAME_POOL: [&str; 36] = [
+const NAME_POOL: [&str; 42] = [
     "a", "b", "c", "i", "j", "k", "n", "x", "y", "v", "m", "t", "res", "tmp", "val", "idx", "sum",
     "cnt", "_u", "x1", "y2", "iff", "typ", "procs", "elsex", "of_", "A", "Vec", "var1", "if2", "of3",
-    "proc0", "type9", "while_", "ref7", "array2",
+    "proc0", "type9", "while_", "ref7", "array2", "intVec", "exitAll", "timer", "printi2", "int_", "readcx",
 ];
 
 #[derive(Clone, Debug)]
@@ -244,7 +244,7 @@ impl<'s, 'a> Gen<'s, 'a> {
                 };
                 Lit::Hex(v, txt)
             }
-            7 => Lit::Char(*self.s.pick(&['a', 'Z', ' ', '\n', '0', '+', '/', '_', '~', '"', '\\', '{', '#', '\t'])),
+            7 => Lit::Char(*self.s.pick(&['a', 'Z', ' ', '\n', '0', '+', '/', '_', '~', '"', '\\', '{', '#', '\t', 'ä', '€', '😀'])),
             8 => {
                 let v = self.s.below(65536) as u32;
                 Lit::Dec(v, v.to_string())
